@@ -354,7 +354,8 @@ def rule_R3_R4_R5(ctx):
     resp = some_conditions("tcp_response")
     okresp = bool(resp) and all((("from_server", True) in role_atoms(c)) or
                                 ({("tcp.get_flags&2!=0", True), ("tcp.get_flags&16!=0", True)} <= role_atoms(c)) for (_, _, c) in resp)
-    ctx.check(okresp, "R3", "tcp_response:role", "server signature only when SYN & ACK",
+    respkey = "tcp_response:role" if okresp else "tcp_response:role:under=" + "|".join("+".join("%s%s" % ("" if v else "!", a) for a, v in sorted(role_atoms(c))) for (_, _, c) in resp)
+    ctx.check(okresp, "R3", respkey, "server signature only when SYN & ACK",
               "tcp_response is Some whenever the segment is not a pure SYN (conditions %s): every ACK/data/FIN segment is reported as a server "
               "(SYN+ACK) signature although it is not part of a handshake" % [sorted(role_atoms(c)) for (_, _, c) in resp], ctx.loc(b, i))
     m = some_conditions("mtu")
@@ -433,7 +434,8 @@ def rule_R3_R4_R5(ctx):
         val = SM.operand(ms["r"]["ops"][0], mi, mj)
         params = {x[2] for x in T.params_in(val)}
         accessors = sorted({x[1].rsplit("::", 1)[-1] for x in T.calls_in(val) if "::get_" in x[1]})
-        ctx.check(params <= {"mss"} and not accessors, "R4", fn + ":depends",
+        dep = sorted((params - {"mss"}) | set(accessors))
+        ctx.check(params <= {"mss"} and not accessors, "R4", fn + ":depends" + (":" + "+".join(dep) if dep else ""),
                   "MTU = f(MSS, constants)",
                   "the reported MTU also depends on %s: MSS 1460 with a 20-byte IP header and TCP options yields 1504 instead of MSS + minimal IP and TCP "
                   "header sizes, so the link label lookup misses" % sorted((params - {"mss"}) | set(accessors)), ctx.loc(mb, mi))
